@@ -876,6 +876,16 @@ func (dc driverContextContextual) isActionable(driver stateTableDriver, entry ta
 	return markIndex != 0xFFFF || currentIndex != 0xFFFF
 }
 
+// substitute returns the replacement for `glyph` found in the substitution table
+// at `index`, or false if there is none. A missing table (invalid `index` or null offset)
+// does not substitute anything.
+func (dc *driverContextContextual) substitute(index uint16, glyph GID) (uint16, bool) {
+	if int(index) >= len(dc.table.Substitutions) || dc.table.Substitutions[index] == nil {
+		return 0, false
+	}
+	return dc.table.Substitutions[index].Class(gID(glyph))
+}
+
 func (dc *driverContextContextual) transition(driver stateTableDriver, entry tables.AATStateEntry) {
 	buffer := driver.buffer
 
@@ -891,8 +901,7 @@ func (dc *driverContextContextual) transition(driver stateTableDriver, entry tab
 		markIndex, currentIndex = entry.AsMorxContextual()
 	)
 	if markIndex != 0xFFFF {
-		lookup := dc.table.Substitutions[markIndex]
-		replacement, hasRep = lookup.Class(gID(buffer.Info[dc.mark].Glyph))
+		replacement, hasRep = dc.substitute(markIndex, buffer.Info[dc.mark].Glyph)
 	}
 	if hasRep {
 		buffer.unsafeToBreak(dc.mark, min(buffer.idx+1, len(buffer.Info)))
@@ -906,8 +915,7 @@ func (dc *driverContextContextual) transition(driver stateTableDriver, entry tab
 	hasRep = false
 	idx := min(buffer.idx, len(buffer.Info)-1)
 	if currentIndex != 0xFFFF {
-		lookup := dc.table.Substitutions[currentIndex]
-		replacement, hasRep = lookup.Class(gID(buffer.Info[idx].Glyph))
+		replacement, hasRep = dc.substitute(currentIndex, buffer.Info[idx].Glyph)
 	}
 
 	if hasRep {
